@@ -19,7 +19,10 @@ intro="""## 9. Seeded changes: which checks catch which
 worktree of /repo (nothing from /verif): a first round with one change for each of the 37 claimed properties, and a
 second round (directories `<ID>b`) in which the seeder was additionally told to pick the part of the statement that a
 verification effort is least likely to have covered, and a third round for sixteen properties (`<ID>c`) asking for a
-trigger that needs two features of the statement together or a multi-step history. Each compiles, passes the existing
+trigger that needs two features of the statement together or a multi-step history, and a fourth round for six
+properties (C06, C07, C10, C17, C18, C35) of which three were missed at first (C07: `?:` on a negative `int` variable; C10: esccli as
+a method with an empty element; C17: empty items under a range counted from the end) and led to new operand kinds / a new harness /
+empty list items. Each compiles, passes the existing
 tests of the packages it touches (and, per the seeder, the broader suite) and comes with a demonstration test that fails
 with the change and passes without it; all of that was re-confirmed by the main session in a scratch worktree
 (`tools/confirm_seeds.sh`). They are kept in `/verif/seeded/<ID>/` (patch.diff, demonstration, meta.json, the seeder's
